@@ -562,6 +562,9 @@ class Walker:
                     c = snap.get("fdc", {}).get(fd, 0)
                     if (payload & 1) and c == 0:
                         self.fail("C01", "no-cause", "source %d sub %d reported readable but its fd %d was not readable when the dispatch polled" % (h, sub, fd))
+                        if self.failed_insert:
+                            self.fail("C15", "rejected-source-event", "source %d sub %d was called back for readiness that is not its own after an insertion was "
+                                      "rejected (%s): an event of the rejected source's leftover registration reached a later source" % (h, sub, sorted(self.failed_insert)))
                     if (payload & 2) and c >= EFD_MAX:
                         self.fail("C01", "no-cause", "source %d sub %d reported writable but its fd %d was not writable when the dispatch polled" % (h, sub, fd))
                 else:
